@@ -70,4 +70,15 @@ PROPS["C18"] = {
     "assumptions": ["Go's make+copy yields memory no one else references (runtime/GC trusted)"],
 }
 
+PROPS["C16"] = {
+    "lean": ["OlricModel.Generated.ParsersSafe", "OlricModel.Props.C16"],
+    "streams": [("parsers", (2, 60000), (6, 2000000))],
+    "model": True,
+    "technique": "Lean 4: verified abstract-interpretation checker (safe_sound) + per-parser `decide` obligations over a model REGENERATED from the Go source by a go/ast translator on every run; translator validated by lock-step runs of the IR interpreter against the real parsers",
+    "level_text": "For every Parse*Command function found in internal/protocol at check time — translated mechanically to a small IR — the Lean kernel checks `safe prog = true`, and the once-proved theorem safe_sound lifts that to: for all argument vectors of all lengths and all strconv behaviours the parser returns a command or an error (no out-of-range index/slice, every option loop terminates). The translation is validated against the real functions on exhaustive short vectors and random long ones. Handler-level checks (ids, payloads) are exercised by the cluster handlers stream.",
+    "design_ref": "DESIGN.md §6 C16",
+    "modelled": "internal/protocol/*.go Parse* functions (translated, not hand-written); redcon's RESP reader and the handlers' bodies are not modelled",
+    "assumptions": ["redcon never dispatches an empty command (cmd.Args[0] exists)", "strconv/hex functions return an error on bad input and never panic"],
+}
+
 NOT_CLAIMED = {}
